@@ -1,5 +1,6 @@
 import difflib
 import re
+import threading
 from copy import copy
 from dataclasses import dataclass
 from typing import (
@@ -42,6 +43,8 @@ TSlotData = TypeVar("TSlotData", bound=Mapping, contravariant=True)
 
 DEFAULT_SLOT_KEY = "default"
 FILL_GEN_CONTEXT_KEY = "_DJANGO_COMPONENTS_GEN_FILL"
+# Set while the body of a `{% component %}` tag is rendered only to find its `{% fill %}` tags
+_fill_extraction = threading.local()
 SLOT_DATA_KWARG = "data"
 SLOT_NAME_KWARG = "name"
 SLOT_DEFAULT_KWARG = "default"
@@ -156,7 +159,12 @@ class SlotRef:
     def __str__(self) -> str:
         context = copy(self._context)
         context.dicts = list(self._context_layers)
-        with context.update(self._component_keys):
+        extra_context = dict(self._component_keys)
+        # If we are rendered only to find the `{% fill %}` tags in the body of a `{% component %}` tag,
+        # then, same as in the body itself, the components in the default content must not be rendered.
+        if getattr(_fill_extraction, "depth", 0):
+            extra_context[FILL_GEN_CONTEXT_KEY] = []
+        with context.update(extra_context):
             with context.render_context.push(self._render_ctx_layer):
                 return mark_safe(self._slot.nodelist.render(context))
 
@@ -981,7 +989,13 @@ def _extract_fill_content(
     # it will add itself into captured_fills, because `FILL_GEN_CONTEXT_KEY` is defined.
     captured_fills: List[FillWithData] = []
     with context.update({FILL_GEN_CONTEXT_KEY: captured_fills}):
-        content = mark_safe(nodes.render(context).strip())
+        # NOTE: What is rendered here is thrown away. Content that is rendered with a Context of its own
+        # (see `SlotRef`) doesn't see `FILL_GEN_CONTEXT_KEY`, so we tell it with this flag.
+        _fill_extraction.depth = getattr(_fill_extraction, "depth", 0) + 1
+        try:
+            content = mark_safe(nodes.render(context).strip())
+        finally:
+            _fill_extraction.depth -= 1
 
     # If we did not encounter any fills (not accounting for those nested in other
     # {% componenet %} tags), then we treat the content as default slot.
